@@ -12,7 +12,13 @@ int main(int argc, char** argv)
     StdOutLogger logger;
     sqf::runtime::runtime::runtime_conf conf;
     sqf::runtime::runtime rt(logger, conf);
-    sqf::operators::ops(rt);
+    if (argc > 1 && !strcmp(argv[1], "real"))
+    {   // only the implemented operators (everything ops() registers except the three ops_dummy_* tables)
+        sqf::operators::ops_config(rt); sqf::operators::ops_diag(rt); sqf::operators::ops_generic(rt); sqf::operators::ops_group(rt); sqf::operators::ops_logic(rt);
+        sqf::operators::ops_markers(rt); sqf::operators::ops_math(rt); sqf::operators::ops_namespace(rt); sqf::operators::ops_object(rt); sqf::operators::ops_sqfvm(rt);
+        sqf::operators::ops_string(rt); sqf::operators::ops_text(rt); sqf::operators::ops_osspecific(rt); sqf::operators::ops_hashmap(rt);
+    }
+    else sqf::operators::ops(rt);
     if (argc > 2 && !strcmp(argv[1], "listing"))
     {   // opsdump listing <hex text>: instruction listing produced by the real parser with the complete real registry
         std::string h = argv[2], text;
